@@ -117,3 +117,31 @@ def host_key_ecdsa(o, params):
 # RFC 8709 4: string "ssh-ed25519" / "ssh-ed448", string key
 def host_key_eddsa(o, params):
     return cat(key_name(o), string(params['key_data']))
+
+
+# ---- OpenSSH PROTOCOL.certkeys: the elements of a certificate. "string" is the RFC 4251 string throughout.
+# valid principals: the packed list holds one string per principal
+SPECS['SshString'] = lambda o: string(o.f['value'])
+
+# critical options and extensions: a sequence of tuples (string name, string data). The data of an option that carries a
+# value is ITSELF a packed string (ssh-keygen writes the value with sshbuf_put_cstring into a buffer and that buffer with
+# sshbuf_put_stringb; sshd reads it back with sshbuf_froms + sshbuf_get_cstring): a non-empty value has TWO length prefixes.
+# Flag options have empty data (one length prefix of zero).
+CERT_OPTION_NAME = dict(SshCertExtensionForceCommand='force-command', SshCertExtensionSourceAddress='source-address',
+                        SshCertExtensionPermitX11Forwarding='permit-X11-forwarding',
+                        SshCertExtensionPermitAgentForwarding='permit-agent-forwarding',
+                        SshCertExtensionPermitPortForwarding='permit-port-forwarding', SshCertExtensionPermitPTY='permit-pty',
+                        SshCertExtensionPermitUserRC='permit-user-rc')
+
+
+def _flag_option(name):
+    return lambda o: cat(string(name), u32(0))
+
+
+for _cls, _name in CERT_OPTION_NAME.items():
+    if _cls not in ('SshCertExtensionForceCommand', 'SshCertExtensionSourceAddress'):
+        SPECS[_cls] = _flag_option(_name)
+# an option the library has no class for: name and data verbatim
+SPECS['SshCertExtensionUnparsed'] = lambda o: cat(string(o.f['extension_name']), string(o.f['extension_data']))
+# force-command: data = string(command)
+SPECS['SshCertExtensionForceCommand'] = lambda o: cat(string('force-command'), string(string(o.f['command'])))
